@@ -86,6 +86,7 @@ def run(ctx, rep):
     len_minus(ctx, F, rep)
     depth_bound(F, rep)
     constant_index_is_converted_first(F, rep)
+    expressions_are_typed_before_they_are_stored(F, rep)
     rep.extra["analysis_rounds"] = fl.rounds
     rep.extra["hand_assembled_option_unwraps_counted_not_judged"] = getattr(fl, "uncounted", 0)
     # K4 panics outside the clause: counted
@@ -612,3 +613,37 @@ def constant_index_is_converted_first(F, rep):
            ("an Ok return (bb %s) is reachable without the conversion: `xs[-1]` on a `[T...]` list type-checks, the code generator's own conversion fails and its "
             "caller unwraps the error (compiler panic inside a block or call argument)" % bad) if bad else "%d Ok returns, all behind the conversion" % len(oks),
            conv[0].span, fn=f.path, key="C16.index-const")
+
+
+
+def expressions_are_typed_before_they_are_stored(F, rep, rule="C16.typed-tree"):
+    """Later stages take the type of an expression they were handed with `.unwrap()` / `if let Ok(..)` + `.unwrap()` (counted, not judged, above):
+    that rests on the invariant that no Expr leaves the expression parser unless its whole tree type-checks.  The nodes are checked where
+    they are built, but some leaves are not (a bare `self` outside of a class), so the last step of parse_expr checks the finished tree.
+    Structural part: the value parse_expr returns is the result of `and_then` over a closure whose own result derives from
+    Expr::for_type / validate / validate_owned on the expression."""
+    pe = F.fn("compiler::ast::math_expr::parse_expr")
+    if pe is None:
+        raise AnchorMissing("math_expr::parse_expr")
+    CHECKS = ("compiler::ast::math_expr::Expr::validate_owned", "compiler::ast::math_expr::Expr::validate", "compiler::ast::math_expr::Expr::for_type")
+    PASS = rules.TRANSPARENT | {rules.TRY_BRANCH, "compiler::CompilationError::details", "compiler::VecErr::to_err_vec", "core::result::Result::map",
+                                "core::result::Result::map_err", "core::result::Result::and_then"}
+    thens = [c for c in pe.calls() if c.matches("core::result::Result::and_then")]
+    ret_calls = rules.origin_calls(pe, 0, transparent=rules.TRANSPARENT | {rules.TRY_BRANCH})
+    final = [c for c in thens if c in ret_calls or c.dst["l"] == 0]
+    ok, why = False, "the value parse_expr returns does not go through `and_then` (origins: %s)" % sorted({mir.short(mir.strip_generics(c.callee())) for c in ret_calls})[:3]
+    for c in final:
+        cd = rules.closure_def_of_arg(pe, c.args[1]) if len(c.args) > 1 else None
+        cl = F.fn(cd) if cd else None
+        if cl is None:
+            why = "the function handed to and_then is not a closure of parse_expr"
+            continue
+        checks = [k for k in cl.calls() if k.matches(CHECKS)]
+        oc = rules.origin_calls(cl, 0, transparent=PASS)
+        if checks and any(k in oc for k in checks):
+            ok = True
+        else:
+            why = "the last step of parse_expr does not type-check the finished tree (%d check calls, result derives from %s): `limit: int = self` at module level reaches an unwrap" % (
+                len(checks), sorted({mir.short(mir.strip_generics(k.callee())) for k in oc})[:3])
+    rep.ob(rule, "parse_expr returns an expression only if its finished tree type-checks", "ok" if ok else "violated", "" if ok else why, pe.span, fn=pe.path,
+           key=rule + "|parse_expr")
